@@ -45,13 +45,19 @@ EXTENDS Naturals, Sequences, FiniteSets, TLC
 
 CONSTANTS Arity,       \* Arity[i] = number of parameters of the i-th exported signature
           Names,       \* Names[i] = prefixed name of the function of the i-th exported signature
+          Prefixes,    \* Prefixes[i] = its predeclared prefix (fn, math, map, array, xs)
+          Seed, StaticThin,  \* an fn: signature takes part in the static-context family iff (i + Seed) % StaticThin = 0
           Classes,     \* the deviating argument classes in use
           CollClasses, \* the collation argument classes in use
-          MaxDev       \* how many positions may deviate from "valid"
+          MaxDev,      \* how many positions may deviate from "valid"
+          Forms,       \* the call forms in use (subset of AllForms \ {"direct"})
+          NsClasses    \* the static contexts in use (subset of AllNsClasses \ {"default"})
 
 VARIABLES sig, args,
-          calls        \* 1, or 2: the SAME call is made a second time in the same process
-vars == <<sig, args, calls>>
+          calls,       \* 1, or 2: the SAME call is made a second time in the same process
+          form,        \* HOW the function is invoked (feature interaction)
+          static       \* the static context of the parse and how the name / the argument list is written
+vars == <<sig, args, calls, form, static>>
 
 AllClasses == {"valid", "attr", "elem", "untyped_bad", "untyped_ok", "empty", "wrong_str", "wrong_num",
                "wrong_dur", "wrong_numstr", "seq", "func", "map", "array", "bigneg", "hugeint", "baduri", "nul"}
@@ -77,9 +83,42 @@ CollationPositions == {
   <<"fn:sort", 2, 2>>, <<"fn:sort", 3, 2>>, <<"array:sort", 2, 2>>, <<"array:sort", 3, 2>>,
   <<"fn:collation-key", 2, 2>>, <<"fn:contains-token", 3, 3>> }
 
+(* CALL FORMS: the same function with the same valid arguments a1..an, reached through another      *)
+(* language feature.  XPath 3.1 3.1.5 / 3.1.6 / 3.16: all of them are the call f(a1..an), so the    *)
+(* outcome class is again Outcome.tla's; "beyond" forms have one argument too many (XPST0017).      *)
+(*   direct      f(a1, .., an)                                                                     *)
+(*   arrow       a1 => f(a2, .., an)                      (n >= 1)                                  *)
+(*   ref_call    f#n(a1, .., an)                                                                   *)
+(*   let_call    let $f := f#n return $f(a1, .., an)                                               *)
+(*   partial     f(?, a2, .., an)(a1)                     (n >= 1)                                  *)
+(*   partial_last f(a1, .., ?)(an)                        (n >= 1)                                  *)
+(*   apply       fn:apply(f#n, [a1, .., an])                                                       *)
+(*   lookup      fn:function-lookup(xs:QName('f'), n)(a1, .., an)                                  *)
+(*   arrow_beyond  a1 => f(a2, .., an, 1)    ref_beyond  f#(n+1)    apply_beyond  fn:apply(f#n, [a1..an, 1]) *)
+AllForms == {"direct", "arrow", "ref_call", "let_call", "partial", "partial_last", "apply", "lookup",
+             "arrow_beyond", "ref_beyond", "apply_beyond"}
+NeedsArg == {"arrow", "partial", "partial_last"}
+
+(* STATIC CONTEXT of the parse (XPath 3.1 2.1.1: statically known namespaces, default function       *)
+(* namespace) x the SPELLING of the function name x the KIND of call.  Error paths included: a       *)
+(* wrong-arity or unknown-function call must end in a coded error (XPST0017) whatever the prefixes   *)
+(* are bound to.                                                                                    *)
+(*   ns:  default | rebind_P (the predeclared prefix P bound to another URI), P in math map array fn *)
+(*        xs err | unbind_all (all of them bound to '') | alias (another prefix bound to the         *)
+(*        namespace too) | fnns_math, fnns_other, fnns_empty (default function namespace)            *)
+(*   spelling:  prefixed  p:local | unprefixed  local | eqname  Q{uri}local (the REAL namespace URI) *)
+(*   kind:  ok | too_many (one more argument) | too_few (last one dropped) | zero_args | unknown_name *)
+AllNsClasses == {"default", "rebind_math", "rebind_map", "rebind_array", "rebind_fn", "rebind_xs", "rebind_err",
+                 "unbind_all", "alias", "fnns_math", "fnns_other", "fnns_empty"}
+Spellings == {"prefixed", "unprefixed", "eqname"}
+Kinds == {"ok", "too_many", "too_few", "zero_args", "unknown_name"}
+DefaultStatic == [ns |-> "default", spelling |-> "prefixed", kind |-> "ok"]
+
+ASSUME FormsOK == Forms \subseteq AllForms \ {"direct"}
+ASSUME NsClassesOK == NsClasses \subseteq AllNsClasses
 ASSUME ClassesOK == Classes \subseteq AllClasses \ {"valid"}
 ASSUME CollClassesOK == CollClasses \subseteq AllCollClasses
-ASSUME NamesOK == Len(Names) = Len(Arity)
+ASSUME NamesOK == Len(Names) = Len(Arity) /\ Len(Prefixes) = Len(Arity)
 
 (* position of the $collation parameter of the i-th signature, 0 if it has none *)
 Coll(i) == LET m == {t \in CollationPositions : t[1] = Names[i] /\ t[2] = Arity[i]}
@@ -91,14 +130,16 @@ Deviating(a) == {i \in DOMAIN a : a[i] # "valid"}
 Init == /\ sig \in 1..Len(Arity)
         /\ args = [i \in 1..Arity[sig] |-> "valid"]
         /\ calls = 1
+        /\ form = "direct"
+        /\ static = DefaultStatic
 
 SetArg(pos, cls) ==
   /\ pos \in DOMAIN args
   /\ args[pos] = "valid"
   /\ Cardinality(Deviating(args)) < MaxDev
-  /\ calls = 1
+  /\ calls = 1 /\ form = "direct" /\ static = DefaultStatic
   /\ args' = [args EXCEPT ![pos] = cls]
-  /\ UNCHANGED <<sig, calls>>
+  /\ UNCHANGED <<sig, calls, form, static>>
 
 (* the $collation argument takes a collation class *)
 SetColl(cls) == Coll(sig) > 0 /\ SetArg(Coll(sig), cls)
@@ -108,11 +149,35 @@ UsesCollation == Coll(sig) > 0 /\ args[Coll(sig)] \in CollClasses
 (* the same call once more, in the same process *)
 Again == /\ UsesCollation /\ calls = 1
          /\ calls' = 2
-         /\ UNCHANGED <<sig, args>>
+         /\ UNCHANGED <<sig, args, form, static>>
+
+Plain == Deviating(args) = {} /\ calls = 1 /\ form = "direct" /\ static = DefaultStatic
+
+(* the same call through another language feature *)
+SetForm(f) == /\ Plain
+              /\ f \in NeedsArg => Arity[sig] >= 1
+              /\ form' = f
+              /\ UNCHANGED <<sig, args, calls, static>>
+
+(* the same function under another static context / spelling / kind of call.  Re-binding a prefix   *)
+(* matters for the functions of that prefix; rebind_err stands for "an unrelated prefix re-bound".   *)
+RelevantNs(i, ns) == ns \in {"rebind_math", "rebind_map", "rebind_array", "rebind_fn", "rebind_xs"}
+                        => ns = "rebind_" \o Prefixes[i]
+InStaticFamily(i) == Prefixes[i] # "fn" \/ (i + Seed) % StaticThin = 0
+
+SetStatic(ns, sp, kd) ==
+  /\ Plain
+  /\ InStaticFamily(sig) /\ RelevantNs(sig, ns)
+  /\ <<ns, sp, kd>> # <<"default", "prefixed", "ok">>
+  /\ kd \in {"too_few", "zero_args"} => Arity[sig] >= 1
+  /\ static' = [ns |-> ns, spelling |-> sp, kind |-> kd]
+  /\ UNCHANGED <<sig, args, calls, form>>
 
 Next == \/ \E pos \in 1..9, cls \in Classes : SetArg(pos, cls)
         \/ \E cls \in CollClasses : SetColl(cls)
         \/ Again
+        \/ \E f \in Forms : SetForm(f)
+        \/ \E ns \in NsClasses \cup {"default"}, sp \in Spellings, kd \in Kinds : SetStatic(ns, sp, kd)
 
 Spec == Init /\ [][Next]_vars
 
@@ -121,10 +186,20 @@ TypeOK == /\ sig \in 1..Len(Arity)
           /\ \A i \in DOMAIN args : args[i] \in Classes \cup CollClasses \cup {"valid"}
           /\ \A i \in DOMAIN args : args[i] \in CollClasses => i = Coll(sig)
           /\ calls \in {1, 2} /\ (calls = 2 => UsesCollation)
+          /\ form \in Forms \cup {"direct"}
+          /\ static.ns \in NsClasses \cup {"default"} /\ static.spelling \in Spellings /\ static.kind \in Kinds
+          /\ (form # "direct" \/ static # DefaultStatic) => Deviating(args) = {} /\ calls = 1
+          /\ ~(form # "direct" /\ static # DefaultStatic)
 Bounded == Cardinality(Deviating(args)) <= MaxDev
 
 (* number of calls the plan must contain when MaxDev = 1 (checked by the harness against the graph) *)
 PlanSize1 == Len(Arity) + Cardinality({x \in (1..Len(Arity)) \X (1..9) \X Classes : x[2] <= Arity[x[1]]})   \* no recursion: 300+ signatures
 PlanSizeColl == Cardinality({i \in 1..Len(Arity) : Coll(i) > 0}) * Cardinality(CollClasses)   \* each of them once more with calls = 2
-(* printed by the generated root module: ASSUME PrintT(<<"plan_size_1", PlanSize1, PlanSizeColl>>) *)
+PlanSizeForms == Cardinality({x \in (1..Len(Arity)) \X Forms : x[2] \in NeedsArg => Arity[x[1]] >= 1})
+PlanSizeStatic == Cardinality({x \in (1..Len(Arity)) \X (NsClasses \cup {"default"}) \X Spellings \X Kinds :
+                                  /\ InStaticFamily(x[1]) /\ RelevantNs(x[1], x[2])
+                                  /\ <<x[2], x[3], x[4]>> # <<"default", "prefixed", "ok">>
+                                  /\ x[4] \in {"too_few", "zero_args"} => Arity[x[1]] >= 1})
+(* printed by the generated root module:                                                          *)
+(*   ASSUME PrintT(<<"plan_size_1", PlanSize1, PlanSizeColl, PlanSizeForms, PlanSizeStatic>>)     *)
 =============================================================================
